@@ -17,7 +17,8 @@ worst ratio measured / allowed of the current run):
   T21/T42) of max|f|, so the validation uses 1e-10; the hypotheses are asserted only where they hold analytically (2 deg p + 2 <= L - 1 and
   exact quadrature), an unresolved control jet (measured 3e-5 .. 4e-2 at the top wavenumber) checks that the
   validation discriminates;
-* steadiness of balanced states: 1e-10..1e-11 of the natural scale (measured 2e-16 .. 3e-13);
+* steadiness of balanced states: resting atmosphere 1e-12 (dry) / 1e-10 (moist) of |g lap h| (measured 2e-16 .. 5e-14 and
+  3e-15 .. 2e-12); rotating states 1e-11 L(L+1) of the natural scale (see BAL_TOL); shallow-water jets 1e-11 cond(D + I);
 * analytic-oracle differential: 1e-9 relative (measured 1e-14 .. 2e-11).
 """
 import numpy as np
@@ -433,7 +434,11 @@ PE_CLASSES = c05_pe.CLASSES
 REST_TOL = 1e-12     # dry classes: residual of a resting state / |g lap h|   (measured 2e-16 .. 8e-15)
 REST_TOL_MOIST = 1e-10   # moist classes: the humidity term goes through to_modal(q * to_nodal(lap ln ps)); the
                          # transform round trip of the Gaussian T21/T42 grids is exact to 2e-12 only (measured 3e-15 .. 2e-12)
-BAL_TOL = 1e-10      # residual of a balanced rotating state / natural scale (measured <= 5e-13)
+BAL_TOL = 1e-11      # residual of a balanced rotating state / (natural scale * L (L + 1)): the transforms of the real
+                     # grids reproduce a resolved field to 2e-14 (T15) .. 5e-13 (T21 .. T42; scipy's Gauss weights are
+                     # exact to 2e-13 only for >= 31 nodes), and the Laplacian / the two derivatives of the momentum
+                     # equations multiply the noise in the top wavenumbers by up to L (L + 1); measured residuals:
+                     # 6e-15 (T15), 3.4e-13 (T21), 1.6e-13 (T31), 5e-13 (T42) times L (L + 1)
 ORACLE_TOL = 1e-9    # code vs pointwise continuous equations, relative   (measured 1e-14 .. 2e-11)
 
 
@@ -632,7 +637,12 @@ def probe_solid_body(ctx, E, G, cls):
   ctx.case(('solid-body', cls, label, sc['u'].tobytes(), b.tobytes()), nontrivial=True,
            sample=inp if cls == 'moist' else None)
   umax = max(np.abs(sc['u']).max(), 1e-300)
-  s_div = 2 * specs.R * np.abs(sc['tv']).max() * abs(sc['c']) / a ** 2 + (umax / a) ** 2
+  # sum of the magnitudes of the terms that cancel in the divergence equation: lap(u^2/2), the Coriolis and
+  # metric terms, g lap h and R Tv lap(ln ps)  (each is a multiple of lap(sin^2/2) = (1 - 3 sin^2) / a^2, |.| <= 2 / a^2)
+  # (the pressure-gradient term is split into an explicit T' and an implicit T_ref half, each of its own size)
+  t_split = np.abs(sc['tv']).max() + np.abs(tref).max() + np.abs(sc['temp'] - tref).max()
+  s_div = 2 * (umax ** 2 + 2 * specs.angular_velocity * a * umax + 2 * specs.g * abs(sc['h0'])
+               + specs.R * t_split * abs(sc['c'])) / a ** 2
   rate = umax / a * max(abs(sc['c']), 1.0)
   scales_ = dict(vorticity=s_div, divergence=s_div, temperature_variation=np.abs(sc['temp']).max() * rate,
                  log_surface_pressure=rate)
@@ -646,11 +656,12 @@ def probe_solid_body(ctx, E, G, cls):
     tot = E.total(cls, tref, oro, coords, specs, kw)
     for k in tracers:
       scales_['tr:' + k] = max(relmax(kw['tracers'][k]), 1e-300) * rate
+    top = grid.modal_shape[1] - 1
     for f, s in scales_.items():
       r = relmax(_nodal(grid, jnp, tot[f]))
-      ctx.expect(margin('solid-body', r, BAL_TOL * s), f'solid-body-not-steady:{cls}',
-                 f'solid-body rotation in gradient-wind balance: {f} tendency {r:.2e}, {r / s:.2e} of its natural scale',
-                 inp)
+      ctx.expect(margin('solid-body', r, BAL_TOL * top * (top + 1) * s), f'solid-body-not-steady:{cls}',
+                 f'solid-body rotation in gradient-wind balance: {f} tendency {r:.2e}, {r / s:.2e} of its natural scale '
+                 f'(allowed {BAL_TOL * top * (top + 1):.1e})', inp)
 
 
 def probe_polynomial(ctx, E, G, cls, deg):
@@ -738,6 +749,57 @@ def probe_primitive(ctx):
           probe_polynomial(ctx, E, G, cls, int(rng.integers(1, c['deg'] + 1)) if rep else c['deg'])
 
 
+def probe_sw_polynomial(ctx):
+  """Layered shallow water on low-degree polynomial states: explicit + implicit = pointwise continuous equations
+  (analytic-oracle differential, labelled test; general, unbalanced, divergent states with orography)."""
+  import jax.numpy as jnp
+  from dinosaur import spherical_harmonic as sh, shallow_water as sw
+  from dinosaur import coordinate_systems as cs, layer_coordinates as lc, scales
+  rng = ctx.rng
+  shapes = [(15, 'gauss', sh.RealSphericalHarmonics, 'quadratic', 2), (21, 'gauss', sh.FastSphericalHarmonics, 'quadratic', 3),
+            (15, 'equiangular', sh.FastSphericalHarmonics, 'cubic', 1)]
+  if not ctx.quick:
+    shapes += [(31, 'gauss', sh.RealSphericalHarmonics, 'quadratic', 4), (21, 'equiangular', sh.RealSphericalHarmonics, 'cubic', 5)]
+  for si, (wn, spacing, impl, deal, layers) in enumerate(shapes):
+    for rep in range(ctx.n(2, 5)):
+      radius = float(rng.choice([1.0, 2.0, 0.37]))
+      omega = float(rng.choice([0.5, 1.0, rng.uniform(0.1, 2.0)]))
+      grid = sh.Grid.with_wavenumbers(wn, latitude_spacing=spacing, radius=radius, spherical_harmonics_impl=impl,
+                                      dealiasing=deal)
+      deg = 3 if rep == 0 else int(rng.integers(1, 4))
+      top, nlat = grid.modal_shape[1] - 1, grid.nodal_shape[1]
+      exact = 2 * nlat - 1 if spacing == 'gauss' else nlat - 1
+      # largest transformed product: (zeta + f) v and Phi v of degree 2 deg + 1, their divergence 2 deg + 2
+      assert 2 * deg + 2 <= top - 1 and 2 * deg + 2 + top <= exact
+      dens = random_densities(rng, layers) if rep % 2 == 0 else rng.uniform(0.2, 3.0, layers)   # also unstable stacks
+      refpot = rng.uniform(0.05, 2.0, layers)
+      amp = float(rng.choice([0.3, 1.0, 3.0])) * radius ** 2 * omega
+      with_oro = bool(rng.integers(0, 2))
+      fields = dict(psi=Poly.random(rng, deg, layers, amp), chi=Poly.random(rng, deg, layers, 0.3 * amp),
+                    phi=Poly.random(rng, deg, layers, 0.5), h=Poly.random(rng, deg, 1, 0.3) if with_oro else None)
+      pts = c05_pe.nodal_points(grid)
+      label = f'T{wn}-{spacing}-{impl.__name__}'
+      inp = dict(probe='sw-polynomial-state', grid=label, degree=deg, layers=layers, radius=radius, angular_velocity=omega,
+                 densities=dens.tolist(), ref_potential=refpot.tolist(), orography=with_oro, amplitude=amp, seed=ctx.seed)
+      ctx.dist[f'sw-polynomial:{label}:layers={layers}:deg={deg}'] += 1
+      ctx.case(('sw-poly', label, layers, fields['psi'].c.tobytes()), nontrivial=True, sample=inp if (si, rep) == (0, 0) else None)
+      orc, st = c05_pe.shallow_water_oracle(radius, omega, dens, refpot, fields, pts)
+      with ctx.impl('sw-polynomial-raised', inp):
+        T = lambda x: grid.to_modal(jnp.asarray(x))
+        coords = cs.CoordinateSystem(grid, lc.LayerCoordinates(layers))
+        specs = sw.ShallowWaterSpecs(dens, radius, omega, 1.0, scales.DEFAULT_SCALE)
+        oro = T(fields['h'](pts)[0]) if with_oro else None
+        eq = sw.ShallowWaterEquations(coords, specs, oro, refpot)
+        tot = total_sw(eq, sw.State(T(st['vorticity']), T(st['divergence']), T(st['potential'])))
+        for f, want in orc.items():
+          got = np.asarray(grid.to_nodal(jnp.asarray(getattr(tot, f))))
+          s_ = max(relmax(want), 1e-300)
+          r = relmax(got, want)
+          ctx.expect(margin('sw:oracle', r, ORACLE_TOL * s_), f'sw-continuous-equations:{f}',
+                     f'{f}: explicit + implicit differs from the continuous layered shallow-water equations by '
+                     f'{r / s_:.2e} (degree-{deg} polynomial state)', inp)
+
+
 def run(ctx: common.Ctx):
   jax = common.setup_jax()
   try:   # the checks call the real code eagerly: every primitive is compiled once per shape; keep them across runs
@@ -750,7 +812,8 @@ def run(ctx: common.Ctx):
   except Exception:  # pylint: disable=broad-except
     pass
   ctx.lean('DinoProofs.Properties.C05', 'C05.txt',
-           extra_files=['DinoProofs/Lemmas/Balance.lean', 'DinoProofs/Lemmas/BalanceSW.lean', 'Dino/DynamicsSW.lean',
+           extra_files=['DinoProofs/Lemmas/Balance.lean', 'DinoProofs/Lemmas/BalanceSW.lean', 'DinoProofs/Lemmas/BalanceCol.lean',
+                        'Dino/DynamicsSW.lean',
                         'Dino/Dynamics.lean'])
   import time
   t = [time.time()]
@@ -767,6 +830,7 @@ def run(ctx: common.Ctx):
     validate_operator_laws(ctx, sh.Grid.with_wavenumbers(21 if 'T21' in label else 15, **kw), label)
   lap('operator laws')
   probe_shallow_water(ctx)
+  probe_sw_polynomial(ctx)
   lap('shallow-water probes')
   probe_primitive(ctx)
   lap('primitive-equation correspondence + probes')
